@@ -607,16 +607,29 @@ def handle (case impl : List String) : String :=
                ("sigintInterrupts", (impl.head? == some "interrupted") == (sn == Task.SIGINT))]
   | ["output", sz, mode] =>
     let n := sz.toNat?.getD 0
-    (if mode == "both" then s!"success {2 * n} {n} {n}" else s!"success {n} {n} 0")
-  | ["shcmd", _] => "same=1 okmatch=1"
-  | ["env", "stdin"] => hexOfBytes (bytesOfString "/dev/null")
+    let want := (if mode == "both" then s!"success {2 * n} {n} {n}" else s!"success {n} {n} 0")
+    want ++ mons [("outputIntact", " ".intercalate impl == want)]
+  | ["shcmd", _] => "same=1 okmatch=1" ++ mons [("runsThroughSh", impl == ["same=1", "okmatch=1"])]
+  | ["env", "stdin"] => hexOfBytes (bytesOfString "/dev/null") ++ mons [("stdinDevNull", impl == [hexOfBytes (bytesOfString "/dev/null")])]
   | ["env", "cwd"] => "same"
-  | ["env", "fds"] => "leaked 0"
-  | ["n2bin", "printed", _, _] => "code=0 once=1 contiguous=1"
-  | ["n2bin", "rspfile"] => "code=0 content=" ++ hexOfBytes (bytesOfString "-a  in1 in2 \"q\" $x")
+  | ["env", "fds"] => "leaked 0" ++ mons [("noFdLeak", impl == ["leaked", "0"])]
+  | ["n2bin", "printed", _, _] => "code=0 once=1 contiguous=1" ++ mons [("printedOnceContiguous", impl == ["code=0", "once=1", "contiguous=1"])]
+  | ["n2bin", "rspfile"] =>
+    let want := "code=0 content=" ++ hexOfBytes (bytesOfString "-a  in1 in2 \"q\" $x")
+    want ++ mons [("rspfileExact", " ".intercalate impl == want)]
   | ["n2bin", "exit", "ok"] => "code=0"
   | ["n2bin", "exit", _] => "code=1"
-  | ["n2bin", "fds"] => "code=0 leaked=0"
+  | ["n2bin", "fds"] => "code=0 leaked=0" ++ mons [("noFdLeak", impl == ["code=0", "leaked=0"])]
+  | "n2bin" :: "outdirs" :: outs =>
+    let os := outs.filterMap bytesOfHex
+    let dirs := ((Task.dirsBeforeCommand os).map hexOfBytes).eraseDups
+    let want := "code=0 dirs=" ++ ",".intercalate (dirs.mergeSort (fun a b => decide (a ≤ b)))
+    -- property: the parent directory of every output exists when the command starts
+    let have_ := match impl with
+      | [_, d] => ((d.drop 5).toString.splitOn ",")
+      | _ => []
+    let parentsExist := os.all (fun o => (Task.parentOf o).isEmpty || have_.contains (hexOfBytes (Task.parentOf o)))
+    want ++ mons [("outputDirsExist", parentsExist && impl.head? == some "code=0")]
   | "sched" :: rest => handleSched rest impl
   | "hist" :: rest => handleHist rest impl
   | "load" :: rest =>
